@@ -69,7 +69,8 @@ pub fn eval_request(st: &mut State, req: &str) -> Option<Obs> {
         ["conv", row, x] => nums::conv_obs(row.parse().ok()?, x),
         ["new", _cfg, t, v] => nums::new_obs(t.parse().ok()?, v.parse().ok()?),
         ["parse", t, h] => nums::parse_obs(t.parse().ok()?, h),
-        ["display", t, v] => nums::display_obs(t.parse().ok()?, v.parse().ok()?),
+        ["display", t, v] => nums::display_obs(t.parse().ok()?, v.parse().ok()?, 0),
+        ["display", t, v, k] => nums::display_obs(t.parse().ok()?, v.parse().ok()?, k.parse().ok()?),
         ["ord", t, a, b] => nums::ord_obs(t.parse().ok()?, a.parse().ok()?, b.parse().ok()?),
         ["consts", t] => nums::consts_obs(t.parse().ok()?),
         ["cnconst", i] => nums::cnconst_obs(i.parse().ok()?),
@@ -90,15 +91,27 @@ fn show_cells(req: &str, o: &Obs) -> String {
 
 pub struct Out<'a> {
     pub st_dummy: (),
+    /// hashes of the distinct non-trivial lines (request + cells) printed so far; a line is non-trivial when its cells
+    /// are neither all `-` nor the bare marker `0`
+    pub distinct: std::collections::HashSet<u64>,
     w: BufWriter<std::io::StdoutLock<'a>>,
     pub st: State,
     pub evaluations: u64,
 }
 
 impl<'a> Out<'a> {
+    fn note(&mut self, req: &str, cells: &str) {
+        use std::hash::{Hash, Hasher};
+        if cells != "0" && cells.split(' ').any(|c| c != "-") {
+            let mut h = std::collections::hash_map::DefaultHasher::new();
+            req.hash(&mut h);
+            cells.hash(&mut h);
+            self.distinct.insert(h.finish());
+        }
+    }
     pub fn req(&mut self, req: &str) {
         match eval_request(&mut self.st, req) {
-            Some(o) => writeln!(self.w, "{} | {}", req, show_cells(req, &o)).unwrap(),
+            Some(o) => { let c = show_cells(req, &o); self.note(req, &c); writeln!(self.w, "{} | {}", req, c).unwrap() }
             None => {
                 eprintln!("harness: cannot evaluate request `{}`", req);
                 std::process::exit(3);
@@ -111,6 +124,7 @@ impl<'a> Out<'a> {
         match eval_request(&mut self.st, req) {
             Some(o) => {
                 let c = show_cells(req, &o);
+                self.note(req, &c);
                 writeln!(self.w, "{} | {}", req, c).unwrap();
                 self.evaluations += 1;
                 c
@@ -138,7 +152,7 @@ fn main() {
     obs::install_panic_hook();
     let args: Vec<String> = std::env::args().collect();
     let stdout = std::io::stdout();
-    let mut out = Out { st_dummy: (), w: BufWriter::with_capacity(1 << 20, stdout.lock()), st: State::default(), evaluations: 0 };
+    let mut out = Out { st_dummy: (), distinct: std::collections::HashSet::new(), w: BufWriter::with_capacity(1 << 20, stdout.lock()), st: State::default(), evaluations: 0 };
     let sub = args.get(1).map(|s| s.as_str()).unwrap_or("");
     let tier = std::env::var("VERIF_TIER").unwrap_or_else(|_| "quick".to_string());
     let tier = tier.as_str();
@@ -280,7 +294,7 @@ fn main() {
                 let (_, _, mx) = gen_conv::newtype_info(t);
                 for s in &strings { out.req(&format!("parse {} {}", t, nums::hex(s))); n += 1; }
                 for s in nums::boundary_numerals(mx) { out.req(&format!("parse {} {}", t, nums::hex(&s))); n += 1; }
-                for v in 0..=mx { out.req(&format!("display {} {}", t, v)); n += 1; }
+                for v in 0..=mx { for k in 0..nums::FMT_SPECS { out.req(&format!("display {} {} {}", t, v, k)); n += 1; } }
                 out.req(&format!("consts {}", t)); n += 1;
                 if mx <= 127 {
                     for a in 0..=mx { for b in 0..=mx { out.req(&format!("ord {} {} {}", t, a, b)); n += 1; } }
@@ -299,13 +313,14 @@ fn main() {
         }
         // encoders
         "enc14-lines" => {
-            let impls: &[&str] = if tier == "thorough" { &["raw", "str", "frn"] } else { &["raw", "str"] };
+            let impls: &[&str] = &["raw", "str", "frn"];
             let mut n = 0u64;
             let mut rng = nums::Rng(seed ^ 0xE14);
             for which in impls {
                 for c in 0..16u32 { for cnn in 0..128u32 {
                     let vals: Vec<u32> = if cnn < 32 {
-                        let step = if tier == "thorough" { 1 } else { 61 };
+                        // the third-party target (trait defaults only) gets a coarser sweep in the quick tier
+                        let step = if tier == "thorough" { 1 } else if *which == "frn" { 1021 } else { 61 };
                         (0..16384u32).step_by(step).chain([127, 128, 8191, 8192, 16383]).collect()
                     } else { vec![0, 16383] };
                     for v in vals { out.req(&format!("enc14 {} {} {} {}", which, c, cnn, v)); n += 1; }
@@ -315,15 +330,17 @@ fn main() {
             out.stat("evaluations", n); out.stat("nontrivial", n);
         }
         "encpn-lines" => {
-            let impls: &[&str] = if tier == "thorough" { &["raw", "str", "frn"] } else { &["raw", "str"] };
+            let impls: &[&str] = &["raw", "str", "frn"];
             let mut n = 0u64;
             let mut rng = nums::Rng(seed ^ 0xE9);
             for which in impls { for i in 0..8u32 { for order in ["msb", "lsb"] {
                 let vmax: u32 = if i == 1 || i == 5 { 16384 } else { 128 };
+                // the third-party target (trait defaults only) gets coarser sweeps in the quick tier
+                let coarse = tier != "thorough" && *which == "frn";
                 for c in 0..16u32 { out.req(&format!("encpn {} {} {} {} {} {}", which, i, c, 421, vmax - 1, order)); n += 1; }
-                for num in 0..16384u32 { out.req(&format!("encpn {} {} {} {} {} {}", which, i, 5, num, (num * 7 + 3) % vmax, order)); n += 1; }
-                for v in 0..vmax { out.req(&format!("encpn {} {} {} {} {} {}", which, i, 15, (v * 131 + 16383) % 16384, v, order)); n += 1; }
-                let samples = if tier == "thorough" { 200_000 } else { 4_000 };
+                for num in (0..16384u32).step_by(if coarse { 37 } else { 1 }) { out.req(&format!("encpn {} {} {} {} {} {}", which, i, 5, num, (num * 7 + 3) % vmax, order)); n += 1; }
+                for v in (0..vmax).step_by(if coarse { 13 } else { 1 }) { out.req(&format!("encpn {} {} {} {} {} {}", which, i, 15, (v * 131 + 16383) % 16384, v, order)); n += 1; }
+                let samples = if tier == "thorough" { 200_000 } else if coarse { 500 } else { 4_000 };
                 for _ in 0..samples {
                     out.req(&format!("encpn {} {} {} {} {} {}", which, i, rng.below(16), rng.below(16384), rng.below(vmax as u64), order)); n += 1;
                 }
@@ -450,5 +467,7 @@ fn main() {
             std::process::exit(2);
         }
     }
+    let d = out.distinct.len() as u64;
+    out.stat("distinct_nontrivial_lines", d);
     out.w.flush().unwrap();
 }
